@@ -738,7 +738,10 @@ def oracle_row(schema, tv, row, prefix=""):
         exp = ref_encode(schema, v)
     except Domain as d:
         if isinstance(enc, list):
-            out.append((prefix + "out-of-domain-silently-encoded", "%s: encoded as %r" % (d, enc)))
+            key = "out-of-domain-silently-encoded"
+            if "missing key without default" in str(d):
+                key = "nested-keyerror-default-substituted"
+            out.append((prefix + key, "%s: encoded as %r" % (d, enc)))
         return out
     if not isinstance(enc, list):
         out.append((prefix + "valid-object-rejected", "valid in-domain value %r -> %r" % (tv, enc)))
@@ -1155,6 +1158,15 @@ def handwritten_cases():
     yield {"schema": dict(S({}), type=["object", "null"]), "values": [None, {}]}
     yield {"schema": dict(S({"p": {"type": "null", "binaryFormat": "0x"}, "n": {"type": "null"}}), type=["object", "null"]),
            "values": [{"p": None, "n": None}]}
+    # witnesses of nested_validators_skipped_refuted (F9c), replayed on the real code every run
+    yield {"schema": S({"o": {"type": "object", "properties": {"a": I32}, "required": []}}), "values": [{"o": {}}, {"o": {"a": 1}}]}
+    yield {"schema": S({"o": {"type": "object", "properties": {"a": {"type": "array", "length": -2, "items": I32}}}}),
+           "values": [{"o": {"a": []}}]}
+    # object_encode's `except KeyError` swallowing a nested KeyError (F9c): the default of "o" is
+    # encoded instead of the supplied {"b": 1}
+    yield {"schema": S({"o": {"type": "object", "properties": {"a": I32, "b": I32}, "required": ["b"],
+                              "default": {"a": 5, "b": 6}}}),
+           "values": [{"o": {"b": 1}}, {"o": {"a": 1, "b": 2}}, {}]}
     # property names that collide with schema keywords
     for nm in ("properties", "type", "required", "default", "items", "null", "index", "additionalProperties", "binaryFormat"):
         yield {"schema": S({nm: I32, "z": I32}), "values": [{nm: 1, "z": 2}]}
